@@ -448,6 +448,17 @@ let spec_check (know : int list) (s : sx) =
        classes := [];
        expect "C09" (fun () -> "a key is present although every update of it the replica has applied is covered by a remove it has applied") absent_ok;
        classes := saved);
+      (* value level, Map<K, Orswot>: op-based causal delivery without state transfer -- the member table under
+         every key is the specification of the knowledge (theorems C05_mapor_values_refine / C01_mapor_converge of
+         proofs/MapOrswot.v; T2 needs a merge, T3 leaves member tables alone: never attributed to a known finding) *)
+      if !ty = "mapor" && not !merges_seen && !all_causal then begin
+        let okv = movalspec_ok (history_of (mop_sx or_inst)) k (cmap_sx or_inst s) in
+        stat ("mapval_" ^ (if okv then "ok" else "bad"));
+        let saved = !classes in
+        classes := [];
+        expect_all ["C01"; "C05"] (fun () -> "Map<K,Orswot>: the members (with their witness clocks) stored under some key differ from the value-level specification of the replica's knowledge (a member is present iff one of its applied adds is covered neither by an applied remove of the key nor by an applied nested remove of the member)") okv;
+        classes := saved
+      end;
       let cat = (if !merges_seen then "merge" else if !all_causal then "causal" else if !all_per_actor then "peractor" else "any") in
       stat ("mapkey_" ^ (if ok then "ok_" else "bad_") ^ cat);
       (* the known findings T1-T3 are about nested VALUES; none of them explains a key-level
